@@ -208,9 +208,10 @@ def standalone(ctx, i, rng, case):
             ctx.violation('C14:apply_rules-raised', {'exception': type(ex).__name__ + ': ' + str(ex)[:150], 'rules': kinds}, case)
             return
         props = [v for (_, _, v) in b.rule_log[before:]]
-        if len(props) != nr:
-            ctx.violation('C14:rule-not-consulted-once', {'rules': nr, 'calls': len(props)}, case)
+        if len(props) < nr or len(props) % nr:
+            ctx.violation('C14:rule-not-consulted', {'rules': nr, 'calls': len(props)}, case)
             return
+        props = props[len(props) - nr:]
         judge_round(ctx, props, out, b.motor.pwm, case, 'standalone', kinds)
         ctx.count('standalone_rounds')
     flush_ensure(ctx, case)
@@ -285,21 +286,25 @@ def simulation(ctx, i, rng, case):
             continue
         if continued and r is runs[-1]:
             ctx.count('continued_runs_with_control')
-        rounds = rounds_of(b, nr, log_pos) if nr else []
+        # proposals grouped by the instant at which they were made; the *last* complete round at an instant is the deciding
+        # one (how many rounds an implementation runs per instant is an observation, not part of the statement)
+        by_instant = {}
+        for (nt, rid, v) in b.rule_log[log_pos:]:
+            by_instant.setdefault(nt - 1, []).append(v)
         used = 0
         for kk in range(r['n0'], r['n1']):
             ctx.count('instants')
             if nr == 0:
                 props = []
             else:
-                if used >= len(rounds):
-                    ctx.violation('C14:instant-without-arbitration-round', {'instant': kk, 'rounds_logged': len(rounds), 'rules': kinds}, case)
+                logged = by_instant.get(kk, [])
+                if len(logged) < nr:
+                    ctx.violation('C14:instant-without-arbitration-round', {'instant': kk, 'proposals_logged_at_instant': len(logged), 'rules': kinds}, case)
                     return
-                props = [v for (_, _, v) in rounds[used]]
-                if any(nt != kk + 1 for (nt, _, _) in rounds[used]):
-                    ctx.violation('C14:round-not-at-its-instant', {'instant': kk, 'round_logged_at': [nt - 1 for (nt, _, _) in rounds[used]]}, case)
-                    return
-                used += 1
+                if len(logged) > nr:
+                    ctx.observe('more than one arbitration round per instant', {'instant': kk, 'proposals_logged': len(logged), 'rules': nr})
+                props = logged[len(logged) - nr:]
+                used += len(logged) // nr
             conflict_here = RR.arbitrate(props)[0] == 'conflict' and not any(isinstance(p, float) and p != p for p in props)
             if conflict_here:
                 # the run must have ended with ValueError exactly here: instant kk is on the axis but not recorded
@@ -320,7 +325,7 @@ def simulation(ctx, i, rng, case):
             if r['exc']:
                 ctx.violation('C14:run-raised-without-conflict', {'exception': r['exc'], 'rules': kinds}, case)
                 return
-        log_pos += used * nr
+        log_pos = len(b.rule_log) if r is runs[-1] else log_pos + sum(len(v) for k_, v in by_instant.items() if r['n0'] <= k_ < r['n1'])
     for kk, d in enumerate(pwm):
         if not (isinstance(d, (int, float)) and (d != d or -1 <= d <= 1)):
             ctx.violation('C14:recorded-duty-cycle-out-of-range', {'instant': kk, 'pwm': d}, case)
